@@ -81,7 +81,8 @@ pub fn rleaf(r: &mut StdRng, o: &TreeOpts) -> Value {
                 0 => r.gen::<f64>(),
                 1 => f64::from_bits(r.gen::<u64>()),
                 2 => (r.gen::<f64>() - 0.5) * 1e6,
-                _ => 0.10200000000000001,
+                // 17 significant digits; floats with a zero fractional part (written 100.0, not 100); a large exponent
+                _ => [0.10200000000000001, 100.0, -3.0, 0.0, 2.0, 1e21][r.gen_range(0..6)],
             };
             Number::from_f64(f).map(Value::Number).unwrap_or(json!(1.5))
         }
